@@ -287,7 +287,9 @@ B3 == {<<1>>, <<1, 0>>, <<1, 1>>, <<1, 2>>, <<2>>, <<3>>}   \* each key and valu
 B2 == {<<1>>, <<1, 0>>, <<1, 1>>, <<2>>}
 B3small == {<<1>>, <<1, 1>>, <<1, 2>>, <<3>>}
 B3tiny == {<<1, 0>>}
+BNone == {}
 OR3 == {<<None, None>>, <<Some(<<1>>), Some(<<2>>)>>, <<Some(<<1, 0>>), None>>, <<None, Some(<<1, 2>>)>>}
+OR3b == {<<None, None>>, <<Some(<<1, 0>>), Some(<<3>>)>>}
 OR2 == {<<None, None>>, <<Some(<<1, 0>>), None>>, <<None, Some(<<1, 1>>)>>}
 OR1 == {<<None, None>>}
 ValById(s) == {<<"a", "b", "c", "d">>[s + 1]}        \* provenance visible: store s sets its own letter
